@@ -35,7 +35,7 @@ ASSUMPTIONS = [
     "callables (geometric checks, momentum distributions) are not part of the serialized state; workloads use the defaults",
     "calculators are deterministic functions of the configuration",
 ]
-REQUIRED = {"resumes_compared": 60, "steps_compared": 300, "workloads_with_restart_file": 12, "resumes_from_step_zero": 10, "resumes_from_last_step": 10}
+REQUIRED = {"second_rebuilds_from_one_dictionary": 20, "resumes_compared": 60, "steps_compared": 300, "workloads_with_restart_file": 12, "resumes_from_step_zero": 10, "resumes_from_last_step": 10}
 SHARD_TIMEOUT = {"quick": 900, "thorough": 3000}
 
 
@@ -143,6 +143,15 @@ def resume_streams(w, docs, ks, n):
             stream.append(sims.state_digest(mc))
             stream[0] = first
             out[str(k)] = {"ok": True, "stream": stream, "name": name}
+            if k % 4 == 1 and k < n:
+                # the same loaded dictionary used a second time (a retry, or a second continuation through another entry
+                # point) after the first rebuilt simulation has run: it must give the same continuation again
+                mc2 = cls.from_dict(data)
+                mc2.atoms.calc = sims.build_calc(w.get("calc", {}), sims.build_atoms(w.get("atoms", {}))[0])
+                second = [reduced_digest(mc2)]
+                mc2.run(n - k)
+                second.append(sims.state_digest(mc2))
+                out[str(k)]["second_rebuild"] = {"first": second[0], "last": second[1]}
         except Exception as ex:  # noqa: BLE001
             import traceback
 
@@ -209,6 +218,11 @@ def run(spec):
         if len(stream) != n - k + 1:
             rec.viol(f"C07/{w['driver']}/resumed-run-performs-wrong-number-of-steps", f"resumed from step {k} and asked for {n - k} steps, the rebuilt simulation performed {len(stream) - 1}", wit)
             continue
+        sr = r.get("second_rebuild")
+        if sr is not None:
+            rec.count("second_rebuilds_from_one_dictionary")
+            if sr["first"] != red[k] or sr["last"] != dig[n]:
+                rec.viol(f"C07/{w['driver']}/second-rebuild-from-same-dictionary-differs", f"the dictionary loaded from the restart file of step {k} was used a second time after the first rebuilt simulation had run: the second one {'starts from another state' if sr['first'] != red[k] else 'ends in another state'}", wit)
         rec.count("steps_compared", n - k)
         for j, d in enumerate(stream[1:], start=k + 1):
             # reference digest after step j's body = dig[j] taken at the start of iteration j (before step j+1) -> index j
